@@ -361,20 +361,26 @@ class CallbacksRegistry:
             callback._iscoro for executor in self._registry.values() for callback in executor
         )
 
-    def call(self, key: str, *args, **kwargs):
+    # The key of the executor is taken positionally from ``*args``: the keyword arguments are the
+    # user's, and any name (``key`` included) must reach the callbacks.
+    def call(self, *args, **kwargs):
+        key, *args = args
         if key not in self._registry:
             return []
         return self._registry[key].call(*args, **kwargs)
 
-    def async_call(self, key: str, *args, **kwargs):
+    def async_call(self, *args, **kwargs):
+        key, *args = args
         return self._registry[key].async_call(*args, **kwargs)
 
-    def all(self, key: str, *args, **kwargs):
+    def all(self, *args, **kwargs):
+        key, *args = args
         if key not in self._registry:
             return True
         return self._registry[key].all(*args, **kwargs)
 
-    def async_all(self, key: str, *args, **kwargs):
+    def async_all(self, *args, **kwargs):
+        key, *args = args
         return self._registry[key].async_all(*args, **kwargs)
 
     def str(self, key: str) -> str:
